@@ -403,6 +403,106 @@ def cases(ctx):
     return out
 
 
+def _s3_reads_between_requests(ctx, rep):
+    """object storage: one commit (append / two-append transaction / delete) whose requests are (a) undisturbed, (b) the pointer PUT lands
+    and its ANSWER is lost (5xx), (c) a metadata / manifest PUT fails once — and a reader (its own handle) that reads after EVERY request the
+    writer makes, and once more when the writer has returned. Every read shows the pre- or the post-state; once the post-state was seen no
+    later read shows the pre-state again."""
+    from .. import fakes3
+    for cas in (True, False):
+        for wk in ("append", "multi", "delete"):
+            for fault in ("none", "pointer-put-landed-answer-lost", "metadata-put-fails-once", "manifest-put-fails-once"):
+                with fakes3.S3Env(cas=cas) as env, fakes3.NoSleep():
+                    loc = "wh/r"
+                    t0 = tablekit.create(loc)
+                    t0.append_records(tablekit.rows(2, tag="init"))
+                    t0.append_records(tablekit.rows(1, start=50, tag="second"))
+                    w, r = tablekit.load(loc), tablekit.load(loc)
+                    pre = sorted(map(reader.rowkey, r.scan()))
+                    seen = []
+                    state = {"busy": False, "fault_left": 1 if fault != "none" else 0}
+
+                    def look(tag):
+                        state["busy"] = True
+                        try:
+                            for api in ("scan", "row_count"):
+                                try:
+                                    got = sorted(map(reader.rowkey, r.scan())) if api == "scan" else r.row_count()
+                                except Exception as e:      # noqa: BLE001
+                                    got = "raise:" + type(e).__name__
+                                seen.append((tag, api, got))
+                        finally:
+                            state["busy"] = False
+
+                    def hook(phase, opn, key, kw):
+                        if state["busy"] or opn in ("body-read", "list-page", "put-body-sent"):
+                            return
+                        k_ = str(key)
+                        if state["fault_left"] and opn == "put":
+                            if fault == "pointer-put-landed-answer-lost" and phase == "after" and k_.endswith("metadata.version-hint.text"):
+                                state["fault_left"] -= 1
+                                look("pointer landed")
+                                raise fakes3.client_error("InternalError", "PutObject")
+                            if fault == "metadata-put-fails-once" and phase == "before" and k_.endswith(".metadata.json"):
+                                state["fault_left"] -= 1
+                                raise fakes3.client_error("InternalError", "PutObject")
+                            if fault == "manifest-put-fails-once" and phase == "before" and "/manifests/" in k_:
+                                state["fault_left"] -= 1
+                                raise fakes3.client_error("SlowDown", "PutObject")
+                        if phase == "after":
+                            look(f"{opn} {k_.rsplit('/', 1)[-1][:28]}")
+                    env.fake.hook = hook
+                    outcome = "ok"
+                    try:
+                        if wk == "append":
+                            w.append_records(tablekit.rows(1, start=100, tag="w_"))
+                        elif wk == "multi":
+                            with w.new_transaction() as tx:
+                                tx.append_data(tablekit.rows(1, start=100, tag="wa_"))
+                                tx.append_data(tablekit.rows(1, start=101, tag="wb_"))
+                                tx.commit()
+                        else:
+                            with w.new_transaction() as tx:
+                                tx.delete_files(["/" + tablekit.data_paths(w)[0]])
+                                tx.commit()
+                    except Exception as e:      # noqa: BLE001
+                        outcome = "raise:" + type(e).__name__
+                    env.fake.hook = None
+                    look("writer returned")
+                    try:
+                        final = sorted(map(reader.rowkey, tablekit.load(loc).scan()))
+                    except Exception as e:      # noqa: BLE001
+                        final = "raise:" + type(e).__name__
+                    rep.evaluations += 1
+                    rep.nontrivial(["s3-reads", cas, wk, fault, len(seen)])
+                    rep.distribution[f"s3-reads:{outcome.split(':')[0]}"] += 1
+                    case = {"kind": "s3-reads-after-each-writer-request", "conditional_writes": cas, "writer": wk, "fault": fault, "writer_outcome": outcome}
+                    posts = [g for _t, a_, g in seen if a_ == "scan" and g != pre and not isinstance(g, str)]
+                    post = posts[0] if posts else None
+                    flipped = False
+                    for tag, api, got in seen:
+                        if isinstance(got, str) and got.startswith("raise"):
+                            rep.violate("C02:read-raises-during-commit", f"S3 ({'CAS' if cas else 'plain'}) {wk} / {fault}: {api} after '{tag}' raises {got}", {**case, "after": tag})
+                            break
+                        val_pre = pre if api == "scan" else len(pre)
+                        val_post = None if post is None else (post if api == "scan" else len(post))
+                        if got == val_pre and val_pre != val_post:
+                            if flipped:
+                                rep.violate("C02:read-moved-backwards", f"S3 ({'CAS' if cas else 'plain'}) {wk} / {fault}: {api} after '{tag}' shows the state BEFORE the commit "
+                                            f"although an earlier read through the same handle had shown the state after it (writer: {outcome})", {**case, "after": tag})
+                                break
+                        elif got == val_post:
+                            flipped = True
+                        else:
+                            rep.violate("C02:read-shows-neither-pre-nor-post", f"S3 ({'CAS' if cas else 'plain'}) {wk} / {fault}: {api} after '{tag}' returns "
+                                        f"{got if isinstance(got, int) else len(got)} rows: neither the state before nor after the commit", {**case, "after": tag})
+                            break
+                    if flipped and final == pre:
+                        rep.violate("C02:read-moved-backwards", f"S3 ({'CAS' if cas else 'plain'}) {wk} / {fault}: readers saw the new snapshot, the final table is the old one", case)
+                    if post is not None and wk == "multi" and len(post) != len(pre) + 2:
+                        rep.violate("C02:multi-op-transaction-partially-visible", f"S3 {wk}: a read showed {len(post)} rows", case)
+
+
 def run(ctx, model_ok):
     rep = Report()
     rep.rule = ("1–2 readers (1–3 reads each over scan, parallel scan, scan_batches(1), iter_records, row_count, filtered scan) × 1–3 writers "
@@ -414,6 +514,7 @@ def run(ctx, model_ok):
     try:
         cs = cases(ctx)
         directed_sweep(ctx, rep, base, model_ok, len(cs) + 1)
+        _s3_reads_between_requests(ctx, rep)
         for c in cs:
             try:
                 run_case(ctx, rep, c, base, model_ok)
